@@ -143,6 +143,7 @@ impl rustc_driver::Callbacks for Cb {
         root.push(("adts".to_string(), typewalk::adts(tcx)));
         root.push(("typewalk".to_string(), typewalk::walks(tcx)));
         root.push(("statics".to_string(), typewalk::statics(tcx)));
+        root.push(("trait_impls".to_string(), typewalk::trait_impls(tcx)));
         root.push(("consts".to_string(), tables::consts(tcx)));
         root.push(("cfg_attrs".to_string(), tables::cfg_traces(tcx)));
 
